@@ -5,8 +5,37 @@ CONFIG = {
         "name": "trackerdb", "pkg": "./ledger/store/trackerdb/", "run": "^TestVerifC15$",
         "files": ["ledger/store/trackerdb/zz_verif_c15_test.go"],
         "util": [("ledger/store/trackerdb", "trackerdb")],
-        "env": {"quick": {"VERIF_C15_LEAF": 2500, "VERIF_C15_LABEL": 500, "VERIF_C15_STATE": 200},
-                "thorough": {"VERIF_C15_LEAF": 60000, "VERIF_C15_LABEL": 10000, "VERIF_C15_STATE": 4000}},
+        "env": {"quick": {"VERIF_C15_LEAF": 1200, "VERIF_C15_LABEL": 250, "VERIF_C15_STATE": 100},
+                "thorough": {"VERIF_C15_LEAF": 40000, "VERIF_C15_LABEL": 8000, "VERIF_C15_STATE": 3000}},
         "timeout": {"quick": 600, "thorough": 3000},
     }],
+    "rule": "pairs of inputs run through the REAL builders (AccountHashBuilderV6, ResourcesHashBuilderV6, KvHashBuilderV6), the real "
+            "ledgercore.MakeLabel (V6/V7/current makers) and, for small states, the real merkletrie root over the real leaves. Families: "
+            "identical inputs; same address / one data field changed; adjacent addresses; adjacent, bit-flipped, byte-shifted and "
+            "byte-reversed creatable ids; asset vs app under one (address, index); builder errors; boxes of one app with the name/value "
+            "boundary shifted by 1-3 bytes (incl. empty values); prefix-related keys; same name under adjacent apps; cross-class pairs whose "
+            "pre-images coincide byte for byte (only the HashKind byte separates them); independent random pairs; label inputs differing in "
+            "exactly one component (msgpack width boundaries of the totals, swapped digests, label format); states differing in one entry, "
+            "inserted in different orders. The model (SHA-512/256 in Gallina) must reproduce every leaf / label byte for byte; spec_ok "
+            "(different entries => different leaves / labels, HashKind byte = class, Go-level data equality = encoding equality) is "
+            "evaluated on the implementation's outputs only. A case is non-trivial when the two inputs differ; distinct = distinct case lines.",
+    "exhaustive": {"quick": False, "thorough": False},
+    "explanation": "theorems hold for every hash function H and all addresses / indices / encodings / keys / values / state sizes; "
+                   "'except through a hash collision' is an explicit disjunct naming the colliding pre-images (no injectivity assumed). "
+                   "The KV leaf is NOT injective (C15_kv_leaf_inj_refuted, C15_label_inj_refuted hold for every H): recorded finding "
+                   "kv_leaf_key_value_boundary; the strongest true label-level statement is C15_label_inj_except_kv.",
+    "assumptions": [
+        "msgp encodings of trackerdb.BaseAccountData / ResourcesData are injective (C40); the data-level theorems take this as a premise "
+        "and the harness compares Go-level equality of the structs with equality of their encodings on every honest pair",
+        "merkletrie root binds the set of leaves up to a collision inside the trie (premise root_binding of the state-level theorems; C17 "
+        "shows the root is a function of the set); the harness observes it on real tries (root equal <=> model leaf sets equal)",
+        "crypto.Hash is SHA-512/256 (Go standard library); the model runs the Gallina transcription coq/model/MerkleTrieSha.v",
+    ],
+    "trusted_base": [
+        "modelled: ledger/store/trackerdb/hashing.go (hashBufV6, finishV6, the three V6 builders, rdGetCreatableHashKind), "
+        "avm-abi apps.MakeBoxKey, ledger/ledgercore/catchpointlabel.go (buffer() of the three makers, MakeLabel incl. decimal/base32 "
+        "rendering), go-codec reflection encoding of ledgercore.AccountTotals, as Gallina in coq/model/CatchpointHash.v",
+        "not modelled (inputs of the model): IsAsset()/IsApp() of a ResourcesData, msgp encodings of account/resource data, the trie root",
+        "tested only: decimal/base32 rendering of the label string (byte-exact on every label case; ParseCatchpointLabel is its inverse in Go)",
+    ],
 }
